@@ -167,6 +167,34 @@ def monitor_noref(lines, out):
                 msgs.append("%s (no reference point) reports %r for point %d, contribution w.r.t. the implied reference %s is %d" % (name, val, i, iref, want[i])); break
     return msgs
 
+def compare_noref(case, mout, iout):
+    """overloads without reference point: the model's result list against the code's.  Contributions position by
+    position (the selected part is sorted, the appended extreme points come in a fixed order), the indices of the
+    appended extreme points exactly, every reported (value, index) against the contribution of that index w.r.t. the
+    implicit reference point; the indices of EQUAL contributions inside the selected part are not determined by the code
+    (std::sort / heap) and are compared as 'distinct indices with the right value' only."""
+    q, d, k, ref, P, _ = parse_case(case)
+    if not P: return None
+    fm, fi = fields(result_line(case, mout) or ""), fields(result_line(case, iout) or "")
+    n = len(P); keff = min(k, n)
+    if "nall" not in fm: return "model printed no result: %r" % (result_line(case, mout),)
+    nall = ints(fm["nall"]); scale = max([1] + [abs(v) for v in nall]) * 10
+    exact = d <= 3
+    ncand = max(0, n - 2) if d == 2 else n - len(set(min(range(n), key=lambda i: (P[i][j], i)) for j in range(d)))
+    for mname, iname in (("ns", "s_disp"), ("nl", "l_disp")):
+        try: got = kvlist(fi.get(iname, "")); want = kvlist(fm.get(mname, ""))
+        except ValueError: return "unparsable %s / %s" % (fi.get(iname), fm.get(mname))
+        if len(got) != len(want): return "%s has %d entries, model has %d" % (iname, len(got), len(want))
+        for (gv, gi), (wv, wi) in zip(got, want):
+            if (gv != wv) if exact else (abs(gv - wv) > 1e-9 * scale): return "%s values %s, model %s" % (iname, fi.get(iname), fm.get(mname))
+            if gi >= n or ((gv != nall[gi]) if exact else (abs(gv - nall[gi]) > 1e-9 * scale)):
+                return "%s entry %r@%d, contribution of that index w.r.t. the implicit reference is %s" % (iname, gv, gi, nall[gi] if gi < n else "?")
+        nsel = min(keff, ncand)
+        if [i for _, i in got[nsel:]] != [i for _, i in want[nsel:]]:
+            return "%s appended extreme points %s, model %s" % (iname, got[nsel:], want[nsel:])
+        if len(set(i for _, i in got)) != len(got): return "%s indices not distinct" % iname
+    return None
+
 # ------------------------------------------------------------------------------------------------
 # model vs implementation (canonical comparison; the model prints spec values)
 
@@ -194,6 +222,11 @@ def compare(a, b, lines_holder=[None]):
                 if x != y: return False
                 continue
             small, large = ints(fx["small"]), ints(fx["large"]); scale = max([1] + [abs(v) for v in ints(fx["spec"])]) * 10
+            # the model of the front end HypervolumeContribution (contrib_front_smallest / largest): same values in the same order
+            for mname, iname in (("fes", "s_disp"), ("fel", "l_disp")):
+                if mname in fx and iname in fy and "EXC" not in fy[iname]:
+                    gv = [v for v, _ in kvlist(fy[iname])]; wv = [v for v, _ in kvlist(fx[mname])]
+                    if len(gv) != len(wv) or any(abs(a - b) > 1e-9 * scale for a, b in zip(gv, wv)): return False
             for name in ("s_disp", "l_disp", "s_alg", "l_alg", "s_md", "l_md"):
                 v = fy.get(name, "-")
                 if v == "-": continue
@@ -456,10 +489,16 @@ def main():
     if noref_cases:
         # one process per case: the undefined behaviour of one query must not be blamed on the next
         io = [run_cases(exe, [c], os.path.join(tmpd, "noref_in.txt"), env=env, timeout=120)[0] for c in noref_cases]
+        mo = run_cases(model, noref_cases, os.path.join(tmpd, "noref_model_in.txt"), timeout=600)
         reported = set()
-        for c, (o, rc, e) in zip(noref_cases, io):
+        for c, (o, rc, e), (om, rcm, em) in zip(noref_cases, io, mo):
             q, d, k, ref, P, _ = parse_case(c)
             msgs = ["implementation crashed (rc=%s)" % rc] if rc != 0 else monitor_noref(c, o)
+            if rc == 0 and not msgs:
+                # the extracted model of the overloads without reference point (noref_front) next to the code
+                mm = compare_noref(c, om, o)
+                if mm: msgs = ["model (noref_front) and implementation differ: " + mm]
+                nr["model_compared"] = nr.get("model_compared", 0) + 1
             if not msgs: nr["ok"] += 1; continue
             n = len(P); keff = min(k, n)
             # candidates: 2-D never selects the two extreme points; 3-D/MD skip the first minimiser of each objective
